@@ -65,10 +65,13 @@ class RequestCookies(MutableMapping):
         else:
             bytes_val = _value_quote(bytes_(value, "utf-8"))
             replacement = bytes_name + b"=" + bytes_val
-        matches = _rx_cookie.finditer(header)
+        matches = list(_rx_cookie.finditer(header))
         found = False
 
-        for match in matches:
+        # a name can occur more than once and the last pair is the one that is
+        # read back: that is the pair to replace, and removing a name removes
+        # all of its pairs (going backwards keeps the earlier spans valid)
+        for match in reversed(matches):
             start, end = match.span()
             match_name = match.group(1)
 
@@ -80,13 +83,13 @@ class RequestCookies(MutableMapping):
                 else:  # replace value
                     header = header[:start] + replacement + header[end:]
 
-                break
-        else:
-            if replacement is not None:
-                if header:
-                    header += b"; " + replacement
-                else:
-                    header = replacement
+                    break
+
+        if not found and replacement is not None:
+            if header:
+                header += b"; " + replacement
+            else:
+                header = replacement
 
         if header:
             self._environ["HTTP_COOKIE"] = text_(header, "latin-1")
